@@ -77,7 +77,7 @@ def run(repo, R):
             R.ok("GATHER", f.site, "prod_c D[order(c), comp_2(c), comp_1(c), c]")
     report(R, f, findings)
     if ex is not None:
-        R.floor("D", nD, 5, "derivative-table stores")
+        R.floor("D", nD, 3, "derivative-table stores")
     R.assumptions += ["derivative recurrence from d/dx x^i exp(-a x^2) = i x^(i-1) - 2a x^(i+1) and integration by parts", "the overlap recurrences are decided under C01",
                       "assembly is decided under C09"]
     return ("STENCIL + AXTYPE on the kinetic-energy kernel chain: the five stores of the derivative table are compared with the derivative "
